@@ -196,6 +196,11 @@ pub fn c17(ctx: &mut Ctx) {
         // byte-level scan of everything observable at debug level or above, in both runs
         for (o, key) in [(&oa, &key_a), (&ob, &key_b)] {
             let mut texts: Vec<(&str, String)> = vec![("error Display", o.err_display.clone()), ("error Debug", o.err_debug.clone()), ("returned value Debug", o.returned.clone())];
+            if let Some(req) = imp::build_request(&c) {
+                for v in imp::debug_views(&c, req) {
+                    texts.push(("Debug of canonical request / parameters / authenticator", v));
+                }
+            }
             for (l, m) in &o.debug_logs {
                 texts.push(("log record", format!("{} {}", l, m)));
             }
